@@ -437,6 +437,10 @@ def run(res, tier):
     replay_libs(res, types, libs, "sim", counts)
     res.sample_case({"simulated_libraries": len(libs), "example_options": libs[0]["opt"],
                      "example_functions": [f["cname"] for f in libs[0]["fns"][:4]]}, cap=9)
+    # histories: the same wrapper path generated into again and again while the headers change, and
+    # functions the serializer rejects next to ordinary ones (spec/back/WrapperHistory.tla)
+    import c16_hist
+    c16_hist.run(res, tier)
     res.add(traces_validated_against_impl=counts.get("libraries", 0), behaviours_generated=total, **counts)
     res.cov["exhaustive"] = False
 
